@@ -21,6 +21,9 @@ type Lin struct {
 	OutFiles map[string]string
 	Upstream map[string]*Lin
 	TaskKey  string
+	// Attached: tags a tagging component attached to this record after it
+	// was created (visible for certain only downstream of the tagger)
+	Attached map[string]string
 }
 
 type Item struct {
@@ -29,8 +32,9 @@ type Item struct {
 	Lin     *Lin
 	Sub     []Item // members, if this item is a sub-stream carrier
 	IsSub   bool
-	Stream  bool // handed over through a FIFO: no file at Path
-	Missing bool // sibling output of a skipped task that is not on disk
+	Stream  bool              // handed over through a FIFO: no file at Path
+	Missing bool              // sibling output of a skipped task that is not on disk
+	Tags    map[string]string // tags attached along the route this item travelled
 }
 
 type Stream struct {
@@ -73,6 +77,9 @@ type Expect struct {
 	StreamPaths map[string]bool    // abs paths of streamed (FIFO) outputs
 	Pre         map[string][]byte  // abs path -> bytes of files that exist before the run
 	Extras      map[string]bool    // abs paths of extra files commands create
+	Tagged      bool
+	TagKeys     map[string]bool
+	Attached    map[string]map[string]string // tags a tagger attached to the record of the file at a path
 }
 
 func Abs(p string) string {
@@ -167,7 +174,7 @@ func Eval(w *WF) *Expect { return EvalWith(w, nil) }
 // EvalWith evaluates the workflow given files that already exist at output
 // paths before the run (pre: abs path -> bytes).
 func EvalWith(w *WF, pre map[string][]byte) *Expect {
-	ex := &Expect{WF: w, Pre: pre, Extras: map[string]bool{}, ByKey: map[string][]*RTask{}, Files: map[string][]byte{}, Owner: map[string]*RTask{},
+	ex := &Expect{WF: w, Pre: pre, Extras: map[string]bool{}, TagKeys: map[string]bool{}, Attached: map[string]map[string]string{}, ByKey: map[string][]*RTask{}, Files: map[string][]byte{}, Owner: map[string]*RTask{},
 		Streams: map[string]*Stream{}, Lins: map[string]*Lin{}, StreamPaths: map[string]bool{}}
 	ex.Active = w.closure()
 	for p, c := range w.Sources {
@@ -281,6 +288,9 @@ func (ex *Expect) evalProc(ni int) {
 			for tk, tv := range it.Lin.Tags {
 				lin.Tags[tk] = tv
 			}
+			for tk, tv := range it.Tags {
+				lin.Tags[tk] = tv
+			}
 		}
 		for k, p := range n.Params {
 			v := pvals[k][i]
@@ -364,7 +374,148 @@ func (ex *Expect) TaskKeys() []string {
 	return ks
 }
 
+func newLin() *Lin {
+	return &Lin{Params: map[string]string{}, Tags: map[string]string{}, OutFiles: map[string]string{}, Upstream: map[string]*Lin{}}
+}
+
 func (ex *Expect) evalComponent(ni int) {
-	n := &ex.WF.Nodes[ni]
-	panic(fmt.Sprintf("reference: component kind %v not evaluated yet (%s)", n.Kind, n.Name))
+	w := ex.WF
+	n := &w.Nodes[ni]
+	switch n.Kind {
+	case KMapToTags:
+		in := ex.inStream(n.Ins[0])
+		out := &Stream{Ordered: in.Ordered}
+		for _, it := range in.Items {
+			// the tagger mutates the record the item carries (shared by pointer)
+			if ex.Attached[Abs(it.Path)] == nil {
+				ex.Attached[Abs(it.Path)] = map[string]string{}
+			}
+			ex.Attached[Abs(it.Path)][n.TagKey] = TagValue(it.Path)
+			nt := copyTags(it.Tags)
+			nt[n.TagKey] = TagValue(it.Path)
+			it.Tags = nt
+			ex.Tagged = true
+			ex.TagKeys[n.TagKey] = true
+			out.Items = append(out.Items, it)
+		}
+		ex.Streams[n.Name+".out"] = out
+	case KStreamToSub:
+		in := ex.inStream(n.Ins[0])
+		carrier := Item{IsSub: true, Sub: append([]Item(nil), in.Items...), Lin: newLin(), Path: "<substream-carrier>"}
+		ex.Streams[n.Name+".substream"] = &Stream{Ordered: in.Ordered, Items: []Item{carrier}}
+	case KFileCombinator:
+		// canonical product order: ports sorted by name, first port slowest
+		var names []string
+		ins := map[string]*Stream{}
+		for _, in := range n.Ins {
+			names = append(names, in.Name)
+			ins[in.Name] = ex.inStream(in)
+		}
+		sort.Strings(names)
+		total := 1
+		for _, nm := range names {
+			total *= len(ins[nm].Items)
+		}
+		for k, nm := range names {
+			st := &Stream{Ordered: true}
+			rep := 1
+			for _, later := range names[k+1:] {
+				rep *= len(ins[later].Items)
+			}
+			for i := 0; i < total; i++ {
+				if len(ins[nm].Items) == 0 {
+					break
+				}
+				st.Items = append(st.Items, ins[nm].Items[(i/rep)%len(ins[nm].Items)])
+			}
+			ex.Streams[n.Name+"."+nm] = st
+		}
+	case KParamCombinator:
+		var names []string
+		vals := map[string][]string{}
+		for _, p := range n.Params {
+			names = append(names, p.Name)
+			if p.From != nil {
+				if up := ex.Streams[w.Nodes[p.From.Node].Name+"."+p.From.Port]; up != nil {
+					vals[p.Name] = up.Vals
+				}
+			} else {
+				vals[p.Name] = p.Vals
+			}
+		}
+		sort.Strings(names)
+		total := 1
+		for _, nm := range names {
+			total *= len(vals[nm])
+		}
+		for k, nm := range names {
+			st := &Stream{IsParam: true, Ordered: true}
+			rep := 1
+			for _, later := range names[k+1:] {
+				rep *= len(vals[later])
+			}
+			for i := 0; i < total; i++ {
+				if len(vals[nm]) == 0 {
+					break
+				}
+				st.Vals = append(st.Vals, vals[nm][(i/rep)%len(vals[nm])])
+			}
+			ex.Streams[n.Name+"."+nm] = st
+		}
+	case KSelector:
+		acc := map[string]bool{}
+		for _, f := range n.Files {
+			acc[f] = true
+		}
+		var ins []*Stream
+		cnt := -1
+		for _, in := range n.Ins {
+			st := ex.inStream(in)
+			ins = append(ins, st)
+			if cnt < 0 || len(st.Items) < cnt {
+				cnt = len(st.Items)
+			}
+		}
+		outs := make([]*Stream, len(ins))
+		for k := range outs {
+			outs[k] = &Stream{Ordered: true}
+		}
+		for i := 0; i < cnt; i++ {
+			ok := true
+			for _, st := range ins {
+				if !acc[st.Items[i].Path] {
+					ok = false
+				}
+			}
+			if ok {
+				for k, st := range ins {
+					outs[k].Items = append(outs[k].Items, st.Items[i])
+				}
+			}
+		}
+		for k, in := range n.Ins {
+			ex.Streams[n.Name+"."+in.Name] = outs[k]
+		}
+	case KGlobber:
+		st := &Stream{Ordered: true}
+		for _, f := range n.Files { // the generator stores the expected matches, in order
+			lin := ex.Lins[Abs(f)]
+			if lin == nil {
+				lin = newLin()
+				lin.Source = true
+				ex.Lins[Abs(f)] = lin
+			}
+			st.Items = append(st.Items, Item{Path: f, Content: []byte(w.Sources[f]), Lin: lin})
+		}
+		ex.Streams[n.Name+".out"] = st
+	case KFileToParams, KCmdToParams:
+		ex.Streams[n.Name+".line"] = &Stream{IsParam: true, Ordered: true, Vals: append([]string(nil), n.Vals...)}
+		ex.Streams[n.Name+".param"] = ex.Streams[n.Name+".line"]
+	case KSplitter, KConcat:
+		// checked by dedicated oracles on recorded streams; no downstream reference
+		ex.Streams[n.Name+".split_file"] = &Stream{}
+		ex.Streams[n.Name+".out"] = &Stream{}
+	default:
+		panic(fmt.Sprintf("reference: component kind %v not evaluated (%s)", n.Kind, n.Name))
+	}
 }
